@@ -2,7 +2,7 @@
 From Coq Require Import ZArith Arith List Bool.
 From B2Z Require Import Base.Prims Model.Plink Model.Partitions Proofs.PlinkProofs Proofs.PartitionsProofs Bridge.BridgePartitions.
 From B2Z Require Gen.GenPartitions.
-From B2Z Require Import Base.PlinkOps Gen.GenPlink Bridge.BridgePlink.
+From B2Z Require Import Base.PlinkOps Gen.GenPlink Bridge.BridgePlink Bridge.BridgePlinkConvert.
 Import ListNotations.
 Open Scope Z_scope.
 
@@ -102,6 +102,21 @@ Print Assumptions translated_reads_chunk_aligned.
 Theorem translated_task_flushes_every_buffer : forall b, In b gen_final_flushes.
 Proof. intros b. destruct b; cbv; tauto. Qed.
 Print Assumptions translated_task_flushes_every_buffer.
+
+(* plink.convert itself as translated: the three genotype arrays have the variants axis first, chunked by the variants chunk
+   size (then samples / samples chunk size), the array handed to core.chunk_aligned_slices is one of them, ploidy 2, one task
+   per slice, the metadata consolidated after the pool is left ... *)
+Theorem translated_convert_arrays : convert_arrays_ok = true.
+Proof. exact translated_convert_arrays_lemma. Qed.
+Print Assumptions translated_convert_arrays.
+
+(* ... and for every number of variants, chunk size and worker count the slices it submits (num_slices = max(1, 4 * workers),
+   through the TRANSLATED chunk_aligned_slices) are a chain of chunk-aligned, non-empty ranges from 0 to m: together with
+   translated_slice_rows every variant row is read and written by exactly one worker task *)
+Theorem translated_convert_rows_once : forall cs m workers, 1 <= m -> 1 <= cs -> 0 <= workers ->
+  exists ps, GenPartitions.chunk_aligned_slices cs m (gen_convert_num_slices workers) None = Ok ps /\ rchain cs 0 ps m.
+Proof. exact translated_convert_rows_once_lemma. Qed.
+Print Assumptions translated_convert_rows_once.
 
 Example translated_slice_instance :
   gen_slice_reads 7 10 17 5 = [(10, 15); (15, 17)] /\ map gen_call [0; 1; 2; -127] = [(0, 0); (1, 0); (1, 1); (-1, -1)].
